@@ -298,12 +298,19 @@ pub fn run(cx: &mut Ctx) {
         }
         rej(cx, "opslimit=0", 32, &salt0, 0, 8192);
         rej(cx, "opslimit=max+1", 32, &salt0, CRYPTO_PWHASH_OPSLIMIT_MAX + 1, 8192);
-        // values whose low 32 bits would be an acceptable cost
+        // values whose low 32 bits would be an acceptable cost, cheapest first: on a tree that wrongly accepts
+        // them the crate really runs the truncated number of passes, so once one acceptance has been recorded
+        // (the verdict is already a violation) the dearer probes of the family are skipped and said so
+        let before = cx.n_violations();
         for k in [1u64, 2, 3] {
             rej(cx, &format!("opslimit=2^32+{}", k), 32, &salt0, (1u64 << 32) + k, 8192);
             rej(cx, &format!("opslimit=2^33+{}", k), 32, &salt0, (1u64 << 33) + k, 8192);
         }
-        rej(cx, "opslimit=u64max", 32, &salt0, u64::MAX, 8192);
+        if cx.n_violations() == before {
+            rej(cx, "opslimit=u64max", 32, &salt0, u64::MAX, 8192);
+        } else {
+            cx.note("opslimit_u64max_probe", json!("skipped: a cheaper out-of-range opslimit was already accepted"));
+        }
         for extra in [8192usize, 9216, 65536] {
             rej(cx, &format!("memlimit=2^42+{}", extra), 32, &salt0, 1, (1usize << 42) + extra);
             rej(cx, &format!("memlimit=2^52+{}", extra), 32, &salt0, 1, (1usize << 52) + extra);
